@@ -9,10 +9,13 @@ VERIF = os.path.dirname(os.path.dirname(os.path.abspath(__file__)))
 
 
 class StreamSet:
-    def __init__(self, name, cfg, cases, extra_defs=(), tag="", timeout=20, env=None, phase2=None):
+    def __init__(self, name, cfg, cases, extra_defs=(), tag="", timeout=20, env=None, phase2=None, cross_with=None):
         self.name, self.cfg, self.cases = name, cfg, cases
         self.extra_defs, self.tag, self.timeout, self.env = tuple(extra_defs), tag, timeout, env
         self.phase2 = phase2
+        # name of an earlier stream set with the same cases: the implementation's output of the two runs
+        # must be identical line by line (used to run the same builds over differently filled heaps)
+        self.cross_with = cross_with
 
 
 class PropSpec:
@@ -343,8 +346,16 @@ def c06_ops(kind, pv, S, r):
 
 def c06_streams(tier, rng):
     cases = kind_cases(tier, rng, ALL_KINDS, c06_ops, phases=("loaded", "generic", "loaded2"))
+    # the decoding subtrees (codewords longer than the table chunk) are part of the image too
+    S, rare, probe = longcw_dict(tier, rng)
+    lc = []
+    for kind in ("HTFC", "HHTFC", "RPHTFC", "HASHHF", "HASHUFFDAC"):
+        op = "loc" if kind in EXACT_ID_KINDS else "rt"
+        qs = [[op, hx(x)] for x in probe]
+        for how in (["reload", "own", 1], ["reload", "generic"]):
+            lc.append(("pl_%s_%s" % (kind, how[1]), "dict", kind, {"b": 8, "ov": 25}, S, [how] + qs + [["exts"], how] + qs))
     # images are self-delimiting: the `reload` op appends a trailer and checks tellg
-    return [StreamSet("persist", "asan", cases)]
+    return [StreamSet("persist", "asan", cases), StreamSet("longcodes", "asan", lc, timeout=120)]
 
 
 def c08_ops(kind, pv, S, r):
@@ -361,7 +372,27 @@ def c08_streams(tier, rng):
             S = gen.us_states()[:9]
             k5.append(("k5_%s_%d" % (kind, lopt), "dict", kind, {"ov": 25}, S, [["reload", "own", lopt], ["rt", hx(S[0])], ["save2"]]))
             k5.append(("k5r_%s_%d" % (kind, lopt), "dict", kind, {"ov": 25}, S, [["resave", lopt]]))
-    return [StreamSet("saves", "asan", main), StreamSet("k5", "asan", k5)]
+    # the image must not depend on what the heap contained: the same builds over a differently filled heap
+    # (ASan's malloc_fill_byte) must print the same image lengths and hashes
+    refill = dict(ASAN_OPTIONS="detect_leaks=0:abort_on_error=0:allocator_may_return_null=1:malloc_fill_byte=85:max_malloc_fill_size=1073741824:detect_stack_use_after_return=0")
+    sweep = []
+    rs = rng.fork("c08sweep")
+    for L in range(40, 104):
+        body = sorted(set(bytes(rs.choice(gen.ALPHABETS[26]) for _ in range(rs.range(3, 7))) for _ in range(5)))
+        pad = L - sum(len(x) + 1 for x in body) - 1
+        if pad < 1:
+            continue
+        S = sorted(set(body + [bytes([0x7a]) * pad]))
+        for kind, pv in (("FMINDEX", {"rrr": 0, "bs": 4, "bwt": 4}), ("FMINDEX", {"rrr": 1, "bs": 5, "bwt": 3}), ("XBW", {}), ("HASHHF", {"ov": 25}),
+                         ("HASHRPDAC", {"ov": 25, "hs": int(len(S) * 1.25)}), ("HASHUFFDAC", {"ov": 25}), ("RPDAC", {}), ("HTFC", {"b": 3}), ("RPFC", {"b": 3})):
+            sweep.append(("c8s%d_%s_%s" % (L, kind, pv.get("rrr", "")), "dict", kind, pv, S, [["save"], ["resave", 1], ["save2"]]))
+    # decoding subtrees (codewords longer than the table chunk) are saved too
+    LS, rare, probe = longcw_dict(tier, rng)
+    lc = [("c8l_%s" % kind, "dict", kind, {"b": 8, "ov": 25}, LS, [["save2"], ["rt", hx(rare[0])], ["save2"], ["resave", 1], ["save"]])
+          for kind in ("HTFC", "HHTFC", "RPHTFC", "HASHHF", "HASHUFFDAC")]
+    return [StreamSet("saves", "asan", main), StreamSet("k5", "asan", k5), StreamSet("longcodes", "asan", lc, timeout=120),
+            StreamSet("sizes", "asan", sweep), StreamSet("sizes-refilled", "asan", sweep, env=refill, cross_with="sizes"),
+            StreamSet("saves-refilled", "asan", main, env=refill, cross_with="saves")]
 
 
 def c13_ops(kind, pv, S, r):
